@@ -79,9 +79,10 @@ oracles since). The prompts are `tools/seed-prompt.txt` plus the per-round guida
 that were also tried).** The neighbour cases are all of one kind: the change sits in a call or a document that the
 named property's statement does not cover —
 
-* C01-G, C08-H, C16-H change `read_to_end` (its failure path, its span, its use for an ancestor); C01, C08 and C16
-  speak about `read_event`. C12, whose statement they break, reports all three (C16 also reports C01-G through
-  its configuration probe). C02-G needs a source that answers `Interrupted` (C18's statement; C18 reports it).
+* C01-G, C01-N, C08-H, C16-H change `read_to_end` (its failure path, its span, its use for an ancestor); C01, C08
+  and C16 speak about `read_event`. C12, whose statement they break, reports all four (C16 also reports C01-G and
+  C01-N through its configuration probe). C08-M is in the synchronous `Read` side of `Reader::stream()`; C03's
+  raw-read mode reports it. C02-G needs a source that answers `Interrupted` (C18's statement; C18 reports it).
   C08-G is in the async reader's `stream()` (C08 is about the borrowing reader; C02 and C03 report it). C06-K
   only affects a `char` list item that is a blank, which is outside C06's documented round-trip domain; C13's
   payload non-interference reports it.
